@@ -96,23 +96,42 @@ fn build_trees_from(lang: &str, srcs: Vec<String>, fields: &'static [&'static st
           multi.push(*f);
         }
       }
+      // tree-sitter disagreeing with ITSELF: the cursor's sibling walk (goto_first_child_for_byte +
+      // goto_previous/next_sibling, the primitives prev_all/next_all are built on) against the
+      // prev_sibling()/next_sibling() chain. Decided on tree-sitter's own API only, not through
+      // Node::prev_all / next_all, so that a fault in those is judged, not skipped.
       let sib = nodes.iter().any(|n| {
-        let key = |x: &ast_grep_core::Node<D>| (x.node_id(), x.range(), x.kind_id());
-        let a: Vec<_> = n.prev_all().take(1000).map(|x| key(&x)).collect();
+        let ts = n.get_ts_node();
+        let Some(p) = ts.parent() else { return false };
+        let mut cur = p.walk();
+        cur.goto_first_child_for_byte(ts.start_byte());
+        let mut a = vec![];
+        while cur.goto_previous_sibling() && a.len() < 1000 {
+          let x = cur.node();
+          a.push((x.id(), x.start_byte(), x.end_byte(), x.kind_id()));
+        }
         let mut b = vec![];
-        let mut cur = n.prev();
-        while let Some(x) = cur {
-          b.push(key(&x));
-          cur = x.prev();
+        let mut x = ts.prev_sibling();
+        while let Some(y) = x {
+          b.push((y.id(), y.start_byte(), y.end_byte(), y.kind_id()));
+          x = y.prev_sibling();
         }
-        let c: Vec<_> = n.next_all().take(1000).map(|x| key(&x)).collect();
+        let mut cur = p.walk();
+        cur.goto_first_child_for_byte(ts.start_byte());
+        // the cursor must stand on the node itself for the forward walk to mean anything
+        let on_self = cur.node().id() == ts.id();
+        let mut c = vec![];
+        while cur.goto_next_sibling() && c.len() < 1000 {
+          let x = cur.node();
+          c.push((x.id(), x.start_byte(), x.end_byte(), x.kind_id()));
+        }
         let mut d = vec![];
-        let mut cur = n.next();
-        while let Some(x) = cur {
-          d.push(key(&x));
-          cur = x.next();
+        let mut x = ts.next_sibling();
+        while let Some(y) = x {
+          d.push((y.id(), y.start_byte(), y.end_byte(), y.kind_id()));
+          x = y.next_sibling();
         }
-        n.parent().is_some() && (a != b || c != d)
+        a != b || (on_self && c != d) || !on_self
       });
       drop(nodes);
       Some(Tree {
@@ -170,8 +189,13 @@ fn skeleton(r: &R) -> String {
 }
 
 fn run_rule(rep: &Reporter, lang: &str, r: &R, trees: &[Tree], stats: &Stats) {
+  run_doc(rep, lang, &RuleDoc::simple(r.clone()), "", trees, stats)
+}
+
+/// `tag`: prefix of the violation signature for documents that are more than one rule
+fn run_doc(rep: &Reporter, lang: &str, doc: &RuleDoc, tag: &str, trees: &[Tree], stats: &Stats) {
   let spec = spec_by_name(lang).unwrap();
-  let doc = RuleDoc::simple(r.clone());
+  let r = &doc.rule;
   let core = match doc.load_core(spec.lang) {
     Ok(c) => c,
     Err(_) => {
@@ -179,7 +203,7 @@ fn run_rule(rep: &Reporter, lang: &str, r: &R, trees: &[Tree], stats: &Stats) {
       return;
     }
   };
-  let comp = match compile_doc(&doc, spec.lang) {
+  let comp = match compile_doc(doc, spec.lang) {
     Ok(c) => c,
     Err(e) => machinery(&format!("reference cannot compile an accepted rule {}: {e}", r.to_json())),
   };
@@ -215,14 +239,14 @@ fn run_rule(rep: &Reporter, lang: &str, r: &R, trees: &[Tree], stats: &Stats) {
           }
           if i != rf {
             let sig = format!(
-              "mismatch:{}:{}{}",
+              "{tag}mismatch:{}:{}{}",
               if i { "impl-only" } else { "ref-only" },
               skeleton(r),
               if n.parent().is_none() { ":root" } else { "" }
             );
             rep.violation(
               &sig,
-              json!({"lang": lang, "rule": r.to_json(), "src": t.src, "node": {"kind": n.kind(), "range": [n.range().start, n.range().end]}, "impl": i, "ref": rf}),
+              json!({"lang": lang, "rule": r.to_json(), "doc": doc.core_json(), "globals": doc.globals.iter().map(|(k, v)| (k.clone(), v.0.to_json())).collect::<serde_json::Map<_, _>>(), "src": t.src, "node": {"kind": n.kind(), "range": [n.range().start, n.range().end]}, "impl": i, "ref": rf}),
             );
           }
         }
@@ -309,6 +333,34 @@ fn main() {
     }
     r1.par_iter().for_each(|r| run_rule(&rep, lang, r, &trees1, &stats));
     r2.par_iter().for_each(|r| run_rule(&rep, lang, r, &trees2, &stats));
+    // a LOCAL utility shadows a GLOBAL utility of the same id: `matches` resolves to the local one,
+    // and so must every kind set derived from it (the local one has no kind set, the global has)
+    {
+      let locals: Vec<R> = vec![R::Regex(la.regexes[0].to_string()), R::Not(Box::new(R::Kind(la.kinds[0].to_string()))), R::Pat("$X".into()),
+        R::Any(vec![R::Regex(la.regexes[1].to_string()), R::Kind(la.kinds[2].to_string())])];
+      let mut docs = vec![];
+      for loc in &locals {
+        for gk in la.kinds.iter().take(3) {
+          let m = R::Matches("u".into());
+          let uses: Vec<R> = vec![
+            m.clone(),
+            R::All(vec![m.clone(), R::Any(vec![R::Kind(la.kinds[0].to_string()), R::Kind(la.kinds[2].to_string())])]),
+            R::Any(vec![m.clone(), R::Kind(la.kinds[1].to_string())]),
+            R::Obj(vec![R::Kind(la.kinds[2].to_string()), m.clone()]),
+            R::Has(Box::new(Rel { rule: m.clone(), stop: Stop::End, field: None })),
+            R::All(vec![R::Kind(la.kinds[1].to_string()), R::Not(Box::new(m.clone()))]),
+          ];
+          for u in uses {
+            let mut d = RuleDoc::simple(u);
+            d.utils.insert("u".into(), loc.clone());
+            d.globals.insert("u".into(), (R::Kind(gk.to_string()), Default::default()));
+            docs.push(d);
+          }
+        }
+      }
+      rules_total += docs.len();
+      docs.par_iter().for_each(|d| run_doc(&rep, lang, d, "shadowed-global-util:", &trees2, &stats));
+    }
     // `field` x rule-valued `stopBy` family over a WIDER kind list (the kinds that occur as field
     // children are internal nodes such as `arguments`, absent from the general atom list): the
     // field child may itself be the stop node, an inner match, both or neither
@@ -358,7 +410,7 @@ fn main() {
   let cov = json!({
     "evaluations": stats.evals.load(Ordering::Relaxed),
     "distinct_nontrivial": stats.nontrivial_rules.load(Ordering::Relaxed),
-    "rule": "every rule tree of depth <= 2 over per-language atoms (rulegen.rs: all/any/not, inside/has/precedes/follows x stopBy neighbor|end|rule x field, nthChild An+B/reverse/ofRule, multi-key objects; plus has/inside with every (field, inner kind, stop kind) over a kind list widened by the kinds of field children; plus every `range` with lines 0..3 x character columns 0..5, alone and under obj/not/inside/has, on every space-or-newline layout of every token string) loaded through the real YAML deserialiser, against every node of every tree parsed from token strings <= L without zero-width nodes; an evaluation is one (rule, node) pair; distinct_nontrivial = number of distinct rules that matched at least one node and rejected at least one node",
+    "rule": "every rule tree of depth <= 2 over per-language atoms (rulegen.rs: all/any/not, inside/has/precedes/follows x stopBy neighbor|end|rule x field, nthChild An+B/reverse/ofRule, multi-key objects; plus documents in which a kind-less local utility shadows a global utility of the same id; plus has/inside with every (field, inner kind, stop kind) over a kind list widened by the kinds of field children; plus every `range` with lines 0..3 x character columns 0..5, alone and under obj/not/inside/has, on every space-or-newline layout of every token string) loaded through the real YAML deserialiser, against every node of every tree parsed from token strings <= L without zero-width nodes; an evaluation is one (rule, node) pair; distinct_nontrivial = number of distinct rules that matched at least one node and rejected at least one node",
     "samples": samples.take(),
     "exhaustive": true,
     "rules": rules_total,
